@@ -109,10 +109,6 @@ def ops(tier):
 # ---- known findings: narrow predicates over (exception type, innermost pyxform frame) -----------------------------------------
 FINDINGS = {
     "F4c-external-select-unfiltered": ("KeyError", "add_choices_info_to_question"),
-    "F21-randomize-with-search": ("AttributeError", "_redirect_is_search_itext"),
-    "F23-header-jr": ("IndexError", "process_header"),
-    "F27-entities-sheet-without-list-name": ("KeyError", "get_validated_dataset_name"),
-    "F28-control-character-with-reference": ("ExpatError", "node"),
     "F42-settings-slot-with-plain-text": ("AttributeError", "__no_such_site__"),     # matched by the structural predicate in classify()
     "F46-osm-tag-cycle": ("RecursionError", "has_external_choices"),
     "F47-grouped-extra-choice-column": ("AttributeError", "__no_such_site__"),     # structural predicate in classify()
@@ -121,14 +117,9 @@ FINDING_INPUTS = {
     "F4c-external-select-unfiltered": {"survey": [{"type": "select_one_external cities", "name": "c", "label": "C"}],
                                        "choices": [{"list_name": "l", "name": "a", "label": "A"}],
                                        "external_choices": [{"list_name": "cities", "name": "a", "label": "A"}]},
-    "F21-randomize-with-search": {"survey": [{"type": "select_one l", "name": "s", "label": "S", "parameters": "randomize=true", "appearance": "search('f')"}],
-                                  "choices": [{"list_name": "l", "name": "a", "label": "A"}]},
-    "F23-header-jr": {"survey": [{"type": "text", "name": "q", "label": "Q", "jr": "x"}]},
     "F42-settings-slot-with-plain-text": {"survey": [{"type": "text", "name": "q", "label": "Q"}], "settings": [{"bind": "text"}]},
     "F46-osm-tag-cycle": {"survey": [{"type": "osm zz", "name": "q1", "label": "L"}], "osm": [{"list_name": "zz", "name": "zz", "label": "l"}]},
     "F47-grouped-extra-choice-column": {"survey": [{"type": "select_one l", "name": "q", "label": "Q"}], "choices": [{"list_name": "l", "name": "x", "label": "X", "region::code": "v"}]},
-    "F27-entities-sheet-without-list-name": {"survey": [{"type": "text", "name": "q", "label": "Q"}], "entities": [{"label": "x"}]},
-    "F28-control-character-with-reference": {"survey": [{"type": "text", "name": "q", "label": "Q"}, {"type": "note", "name": "n", "label": "a\x01 ${q}"}]},
 }
 
 
